@@ -9,62 +9,67 @@
 EXTENDS H2Base, TLC, Json, IOUtils
 
 W == INSTANCE H2Wire
+A == INSTANCE H2Api
 
 Rec == ndJsonDeserialize(IOEnv.TRACE)
 
-VARIABLES l, mon, run, acc, hits, nruns
-vars == <<l, mon, run, acc, hits, nruns>>
+VARIABLES l,      \* position in the trace
+          wm,     \* ep -> H2Wire monitor (real endpoints only)
+          am,     \* H2Api monitor (pair)
+          run,    \* name of the current run
+          acc,    \* violations of finished runs
+          hits,   \* rule -> number of times its antecedent was exercised
+          nruns
+vars == <<l, wm, am, run, acc, hits, nruns>>
 
 Eps == {"c", "s"}
+NoApi == [v |-> <<>>, hits |-> EmptyMap]
 
-InitMon(cfgev) ==
-    [ep \in {x \in Eps : cfgev.real[x]} |-> [w |-> W!Init(ep, cfgev[ep])]]
+SumHits(hs) ==   \* hs: sequence of hit maps
+    LET ks == UNION {DOMAIN hs[j] : j \in 1..Len(hs)}
+        F[j \in 0..Len(hs)] == IF j = 0 THEN [k \in ks |-> 0] ELSE [k \in ks |-> F[j - 1][k] + Get(hs[j], k, 0)]
+    IN F[Len(hs)]
 
-\* merge hit counters
-AddHits(h, mm) ==
-    LET ks == UNION {DOMAIN mm[ep].w.hits : ep \in DOMAIN mm}
-        tot(k) == LET F[T \in SUBSET DOMAIN mm] ==
-                        IF T = {} THEN 0 ELSE LET t == CHOOSE t \in T : TRUE IN Get(mm[t].w.hits, k, 0) + F[T \ {t}]
-                  IN F[DOMAIN mm]
-    IN [k \in (DOMAIN h) \cup ks |-> Get(h, k, 0) + (IF k \in ks THEN tot(k) ELSE 0)]
+SeqOfSet(S) == LET F[T \in SUBSET S] == IF T = {} THEN <<>> ELSE LET t == CHOOSE t \in T : TRUE IN <<t>> \o F[T \ {t}] IN F[S]
 
-Flush(a, mm, r) ==
-    LET F[T \in SUBSET DOMAIN mm] ==
-            IF T = {} THEN <<>>
-            ELSE LET t == CHOOSE t \in T : TRUE
-                 IN [j \in 1..Len(mm[t].w.v) |-> [run |-> r, ep |-> t, v |-> mm[t].w.v[j]]] \o F[T \ {t}]
-    IN a \o F[DOMAIN mm]
+AllHits(h, w, a) ==
+    SumHits(<<h, a.hits>> \o [j \in 1..Cardinality(DOMAIN w) |-> w[SeqOfSet(DOMAIN w)[j]].hits])
 
-StepMon(mm, e, pos) ==
-    [ep \in DOMAIN mm |->
-        IF "ep" \in DOMAIN e /\ e.ep # ep /\ e.ep # "" THEN mm[ep]
-        ELSE [w |-> W!Step(mm[ep].w, e, pos)]]
+Flush(ac, w, a, r) ==
+    LET eps == SeqOfSet(DOMAIN w)
+        F[j \in 0..Len(eps)] ==
+            IF j = 0 THEN <<>>
+            ELSE F[j - 1] \o [k \in 1..Len(w[eps[j]].v) |-> [run |-> r, ep |-> eps[j], v |-> w[eps[j]].v[k]]]
+    IN ac \o F[Len(eps)] \o [k \in 1..Len(a.v) |-> [run |-> r, ep |-> a.v[k].ep, v |-> a.v[k]]]
 
 TraceInit ==
-    /\ l = 1 /\ mon = [x \in {} |-> 0] /\ run = "" /\ acc = <<>> /\ hits = EmptyMap /\ nruns = 0
+    /\ l = 1 /\ wm = [x \in {} |-> 0] /\ am = NoApi /\ run = "" /\ acc = <<>> /\ hits = EmptyMap /\ nruns = 0
 
 TraceNext ==
     /\ l <= Len(Rec)
     /\ l' = l + 1
     /\ LET e == Rec[l] IN
        IF e.t = "cfg"
-       THEN /\ acc' = Flush(acc, mon, run)
-            /\ hits' = AddHits(hits, mon)
-            /\ mon' = InitMon(e)
+       THEN /\ acc' = Flush(acc, wm, am, run)
+            /\ hits' = AllHits(hits, wm, am)
+            /\ wm' = [ep \in {x \in Eps : e.real[x]} |-> W!Init(ep, e[ep])]
+            /\ am' = A!Init(e)
             /\ run' = e.name
             /\ nruns' = nruns + 1
-       ELSE /\ mon' = StepMon(mon, e, l)
-            /\ UNCHANGED <<run, acc, hits, nruns>>
+       ELSE LET w1 == [ep \in DOMAIN wm |->
+                          IF "ep" \in DOMAIN e /\ e.ep # ep /\ e.ep # "" THEN wm[ep]
+                          ELSE W!Step(wm[ep], e, l)]
+            IN /\ wm' = w1
+               /\ am' = A!Step(am, e, l, w1)
+               /\ UNCHANGED <<run, acc, hits, nruns>>
 
 TraceSpec == TraceInit /\ [][TraceNext]_vars
 
 \* at the end of the trace: write the verdict file
 Done == l = Len(Rec) + 1
-Report ==
+ReportInv ==
     Done => JsonSerialize(IOEnv.OUT,
               [consumed |-> l - 1, total |-> Len(Rec), runs |-> nruns,
-               viols |-> Flush(acc, mon, run), hits |-> AddHits(hits, mon)])
-\* Report is evaluated as an invariant (always TRUE); it writes the file once, in the last state
-ReportInv == Report
+               viols |-> Flush(acc, wm, am, run), hits |-> AllHits(hits, wm, am)])
 Accepted == TLCGet("stats").diameter - 1 = Len(Rec)
 =============================================================================
